@@ -15,6 +15,7 @@ SB = {'SB_Diamond': {'0': [], '1': [], '2': [1], '3': [1], '4': [2, 3]},
 PB_FORK = [[], [1], [1]]
 PB = {'PB_Fork': PB_FORK, 'PB_Tree4': [[], [1], [1], [2]]}
 SB['SB_Three'] = {'0': [], '1': [], '2': [1], '3': []}
+SB['SB_Empty'] = {'0': [], '1': [], '2': []}
 RB = {'RB_None5': [[], [], [], [], []],
       'RB_Diamond5': [[], [], [2], [2], [3, 4]],
       'RB_One': [[]], 'RB_Two': [[], [1]], 'RB_None3': [[], [], []],
@@ -80,6 +81,10 @@ EPCACHE = cfgd(NS=1, NG=2, InitSBases='<-SB_One', InitRBases='<-RB_Two',
                RegKeys='<-RegKeysChain', LookKeys='<-LookKeysChain',
                Vals='{1,2}', ValMode='"any"', MaxLive=2, MaxDepth=6,
                ViaAll='TRUE')
+
+EMPTYSPEC = cfgd(NS=2, InitSBases='<-SB_Empty', Muts='{"reg","unreg"}',
+                 Queries='{"lookup","lookupAll"}', RegKeys='<-RegKeysEmpty',
+                 LookKeys='<-LookKeysEmpty', MaxLive=2, MaxDepth=5)
 
 INVS = ['TypeOK', 'ExtOK', 'InvWalkIsBest', 'InvEntryPointsAgree',
         'InvSubsExact', 'CacheTransparent', 'RoIsFresh']
@@ -151,6 +156,8 @@ PLAN = {
              dict(sb='SB_Chain2', rb='RB_Two')),
             ('watch d6 push', 'edges', WATCH,
              dict(sb='SB_Three', rb='RB_One')),
+            ('empty declaration d5 push', 'edges', EMPTYSPEC,
+             dict(sb='SB_Empty', rb='RB_One', empty_spec=2)),
             # re-basing of a registry ABOVE the one that is asked, followed by
             # a mutation of the asked registry itself (three registries)
             ('chain d5 verify', 'edges', dict(CHAIN, Flavour='"verify"'),
@@ -169,6 +176,12 @@ PLAN = {
              dict(sb='SB_Chain2', rb='RB_Two')),
             ('watch d7 push', 'edges', dict(WATCH, MaxDepth=7),
              dict(sb='SB_Three', rb='RB_One')),
+            ('empty declaration d6 push', 'edges',
+             dict(EMPTYSPEC, MaxDepth=6),
+             dict(sb='SB_Empty', rb='RB_One', empty_spec=2)),
+            ('empty declaration d6 verify', 'edges',
+             dict(EMPTYSPEC, MaxDepth=6, Flavour='"verify"'),
+             dict(sb='SB_Empty', rb='RB_One', empty_spec=2)),
             ('watch d7 verify', 'edges', dict(WATCH, MaxDepth=7,
                                               Flavour='"verify"'),
              dict(sb='SB_Three', rb='RB_One')),
@@ -285,6 +298,9 @@ def run_replay(build, v, pid, consts, opt, mode, cases, budget):
                        'seed': seed() * 1000 + si}
                 if opt.get('eq12'):
                     job['eqclass'] = {'1': 1, '2': 1, '3': 2}
+                if opt.get('empty_spec'):
+                    job['empty_spec'] = opt['empty_spec']
+                    job['leaf_impl'] = False
                 jobs.append((implv, job))
     for implv in ('c', 'py'):
         if opt.get('components') and flavour_of(consts) == 'push':
